@@ -152,7 +152,10 @@ def getitem(ex, st, base, idx, node=None):
             return
         if idx.ty not in ("int", "bool"):
             if ex.total:
-                raise _U(f"index type {idx.ty}")
+                # dead branch of a total (spec / clause) evaluation: unspecified value
+                ex.partial_touched = True
+                yield st, V("py", eng.opaque_fn("junk_index", box(base), box(idx)))
+                return
             yield st, _R("TypeError", "index-type")
             return
         i = ex.as_int(idx)
@@ -161,7 +164,7 @@ def getitem(ex, st, base, idx, node=None):
             if r is not None:
                 yield st1, r
                 continue
-            j = z3.simplify(norm_index(i, n))
+            j = S.simp(norm_index(i, n))
             if ty in ("list", "tuple"):
                 yield st1, ex.narrow(st1, V("py", base.t[j]))
             elif ty == "bytes":
@@ -184,8 +187,16 @@ def getitem(ex, st, base, idx, node=None):
                 if r is not None:
                     yield st1, r
                     continue
-                seq = z3.If(Py.is_list(t), Py.items(t), Py.titems(t))
-                yield from getitem(ex, st1, V("list", seq), idx, node)
+                from .calls import py_items
+                yield from getitem(ex, st1, V("list", py_items(t)), idx, node)
+            return
+        if idx.ty == "py" and ex.total:
+            from .calls import py_items
+            seq = py_items(t)
+            i = Py.i(idx.t)
+            j = norm_index(i, z3.Length(seq))
+            ex.partial_touched = True
+            yield st, V("py", z3.If(Py.is_dict(t), S.dict_get(t, idx.t), seq[j]))
             return
         if idx.ty == "py":
             # dynamically typed key on dynamically typed base: dict lookup when base is a
@@ -202,8 +213,17 @@ def getitem(ex, st, base, idx, node=None):
             return
     if ty == "none":
         if ex.total:
-            raise _U("subscript of None")
+            ex.partial_touched = True
+            yield st, V("py", eng.opaque_fn("junk_index", box(base), box(idx)))
+            return
         yield st, _R("TypeError", "subscript-none")
+        return
+    if ex.total:
+        ex.partial_touched = True
+        yield st, V("py", eng.opaque_fn("junk_index", box(base), box(idx)))
+        return
+    if ty in ("int", "bool", "float", "set"):
+        yield st, _R("TypeError", "subscript")
         return
     raise _U(f"subscript of {ty} by {idx.ty}")
 
@@ -243,7 +263,7 @@ def clamp_slice(lo, hi, n):
     s = cl(lo, z3.IntVal(0))
     e = cl(hi, n)
     ln = z3.If(e - s < 0, z3.IntVal(0), e - s)
-    return z3.simplify(s), z3.simplify(ln)
+    return S.simp(s), S.simp(ln)
 
 
 def slice_(ex, st, base, lo, hi, step):
@@ -286,11 +306,21 @@ def store(ex, st, tg, v):
             return
         v = ex.narrow(st, v)
         if v.ty in ("tuple", "list"):
+            elems = arith._concrete_elems(v.t)
+            if elems is not None:
+                # a literal tuple/list: take its elements structurally
+                if len(elems) != n:
+                    if ex.total:
+                        raise _U("unpack arity")
+                    yield st, _R("ValueError", "unpack")
+                    return
+                yield from _store_many(ex, st, tg.elts, [ex.narrow(st, V("py", e)) for e in elems])
+                return
             for st1, r in ex.need(st, z3.Length(v.t) == n, "ValueError", "unpack"):
                 if r is not None:
                     yield st1, r
                     continue
-                parts = [ex.narrow(st1, V("py", z3.simplify(v.t[z3.IntVal(i)]))) for i in range(n)]
+                parts = [ex.narrow(st1, V("py", S.simp(v.t[z3.IntVal(i)]))) for i in range(n)]
                 yield from _store_many(ex, st1, tg.elts, parts)
             return
         if v.ty == "py":
